@@ -59,7 +59,9 @@ func init() {
 			"with per-call options (regex compiler, defaults, multi-error, exclusions, authentication outcome, generator customizer callback) " +
 			"and 2-6 calls run by 2-12 goroutines, 1-3 calls each, 1-2 rounds on freshly loaded documents. Every case runs in a child of the -race harness; " +
 			"verdicts are compared with the same call run alone on a freshly loaded document — for fresh-process cases alone means in two FURTHER fresh processes that run the calls sequentially in forward and reverse order (process-wide caches survive a reloaded document) —; the document's canonical JSON is compared before/after. " +
-			"A case is non-trivial when at least two goroutines run (the driver reports operation kinds, kind pairs, raced cells, slice shapes, registries).",
+			"declared response headers (a required integer header, a pattern-constrained one, a definition named Content-Type) inline or as one component response referenced by three operations, responses with / without / with ill-typed header values × {fresh, warm}; array defaults whose elements are objects (or arrays of objects) receiving nested defaults from the item schema, through ValidateRequest and VisitJSON × {fresh, warm}; " +
+			"history / reuse: ONE goroutine performing every call of a case three times in a row on the same document / routers / Validator, in the given and in reverse order (all kinds + re-validation, the two regex compilers on one pattern, the path-item family for 0/3/4/5 path-level parameters, the schema-list family, generation for eight recursive types; every 12th warm case of the random stream) — deterministic, no schedule involved; " +
+			"A case is non-trivial when at least two goroutines run, or one goroutine performs every call at least twice (the driver reports operation kinds, kind pairs, raced cells, slice shapes, registries, reuse).",
 		Exhaustive: true,
 		Gen:        genC15,
 		Run:        runC15,
@@ -224,6 +226,7 @@ func readRaceLog() []raceReport {
 
 func c15DocJSON(doc map[string]any) []byte {
 	paths := map[string]any{}
+	var c15SharedResp map[string]any
 	for _, o := range jlist(doc["ops"]) {
 		op := o.(map[string]any)
 		item, _ := paths[jstr(op, "path")].(map[string]any)
@@ -239,10 +242,32 @@ func c15DocJSON(doc map[string]any) []byte {
 			oper["requestBody"] = map[string]any{"content": map[string]any{jstr(b, "mt"): map[string]any{"schema": b["schema"]}}}
 		}
 		resp := map[string]any{"description": "ok"}
+		sharedResp := false
 		if r, ok := op["resp"].(map[string]any); ok {
 			resp["content"] = map[string]any{"application/json": map[string]any{"schema": r["schema"]}}
+			// declared response headers (a declared "Content-Type" is legal and must be ignored by validation)
+			if hs, ok := r["headers"].(map[string]any); ok && len(hs) > 0 {
+				hm := map[string]any{}
+				for name, h := range hs {
+					hd := map[string]any{"schema": h.(map[string]any)["schema"]}
+					if jbool(h.(map[string]any), "required") {
+						hd["required"] = true
+					}
+					hm[name] = hd
+				}
+				resp["headers"] = hm
+			}
+			sharedResp = jbool(r, "shared")
 		}
-		oper["responses"] = map[string]any{"200": resp}
+		if sharedResp {
+			// one component response referenced by every operation that asks for it (the first one defines it)
+			if c15SharedResp == nil {
+				c15SharedResp = resp
+			}
+			oper["responses"] = map[string]any{"200": map[string]any{"$ref": "#/components/responses/Shared"}}
+		} else {
+			oper["responses"] = map[string]any{"200": resp}
+		}
 		if jbool(op, "secure") {
 			oper["security"] = []any{map[string]any{"k": []any{}}}
 		}
@@ -275,6 +300,9 @@ func c15DocJSON(doc map[string]any) []byte {
 		if jbool(o.(map[string]any), "secure") {
 			comps["securitySchemes"] = map[string]any{"k": map[string]any{"type": "apiKey", "in": "header", "name": "X-Key"}}
 		}
+	}
+	if c15SharedResp != nil {
+		comps["responses"] = map[string]any{"Shared": c15SharedResp}
 	}
 	if len(comps) > 0 {
 		d["components"] = comps
@@ -675,6 +703,11 @@ func c15Exec(w *c15World, docSpec, call map[string]any) (res string) {
 			Header:                 http.Header{"Content-Type": []string{"application/json"}},
 			Options: &openapi3filter.Options{IncludeResponseStatus: true, MultiError: jbool(call, "multi"),
 				ExcludeResponseBody: jbool(call, "exBody"), ExcludeWriteOnlyValidations: jbool(call, "exRO")},
+		}
+		if hm, ok := call["rhdr"].(map[string]any); ok {
+			for k, v := range hm {
+				rin.Header.Set(k, fmt.Sprint(v))
+			}
 		}
 		rin.SetBodyBytes([]byte(jstr(call, "body")))
 		return errText(openapi3filter.ValidateResponse(ctx, rin))
@@ -1204,6 +1237,12 @@ func (g *c15Gen) object(depth int) map[string]any {
 	if g.r.Chance(15) {
 		s["additionalProperties"] = false
 	}
+	if g.sharedDefaults && g.r.Chance(10) {
+		// an array default whose elements are objects that receive nested defaults from the item schema
+		props["l"] = map[string]any{"type": "array", "default": []any{map[string]any{"s": "ab"}},
+			"items": map[string]any{"type": "object", "properties": map[string]any{"s": map[string]any{"type": "string"},
+				"n": map[string]any{"type": "integer", "default": 1 + g.r.Intn(5)}}}}
+	}
 	if g.sharedDefaults && g.r.Chance(12) {
 		// the shape of finding F-C15-1: an object-valued default that itself receives a nested default
 		props["o"] = map[string]any{"type": "object", "default": map[string]any{},
@@ -1440,6 +1479,13 @@ func (g *c15Gen) doc(nops int) map[string]any {
 		}
 		if g.r.Chance(70) {
 			op["resp"] = map[string]any{"schema": jsonSchema()}
+			if g.lists && g.r.Chance(35) {
+				// declared response headers, among them a definition named Content-Type (to be ignored)
+				op["resp"].(map[string]any)["headers"] = map[string]any{
+					"X-Rate":       map[string]any{"schema": map[string]any{"type": "integer"}, "required": g.r.Bool()},
+					"Content-Type": map[string]any{"schema": map[string]any{"type": "string"}},
+				}
+			}
 		}
 		if g.r.Chance(25) {
 			op["secure"] = true // security requirement: the per-call AuthenticationFunc decides
@@ -1610,6 +1656,9 @@ func (g *c15Gen) call(kind string, doc map[string]any) map[string]any {
 		c["body"] = "{}"
 		if r, ok := op["resp"].(map[string]any); ok {
 			c["body"] = jsonText(g.value(r["schema"].(map[string]any), 0))
+			if _, ok := r["headers"]; ok && g.r.Chance(70) {
+				c["rhdr"] = map[string]any{"X-Rate": hx.Pick(g.r, []string{"5", "abc", "12"})}
+			}
 		}
 	case "visit":
 		name := hx.Pick(g.r, c15_sortedKeys(doc["schemas"].(map[string]any)))
@@ -1772,6 +1821,67 @@ func c15PathItemCase(nItem, variant, n int) hx.Case {
 	return hx.Case{"doc": doc, "calls": calls, "g": 8, "per": 4, "rounds": 2, "cold": false, "sched": 700 + n}
 }
 
+// c15RespHeaderCase: responses that DECLARE headers — a required integer header, a pattern-constrained one and a
+// definition named "Content-Type" (legal; to be ignored) — inline per operation or as ONE component response that two
+// operations reference; responses with / without / with ill-typed header values validated through both routers.
+func c15RespHeaderCase(variant int, cold bool, n int) hx.Case {
+	tag := fmt.Sprintf("rh%d", n)
+	hdrs := func() map[string]any {
+		return map[string]any{
+			"X-Rate":       map[string]any{"schema": map[string]any{"type": "integer", "minimum": 1}, "required": true},
+			"X-Tag":        map[string]any{"schema": map[string]any{"type": "string", "pattern": "^[ab]+(" + tag + ")?$"}},
+			"Content-Type": map[string]any{"schema": map[string]any{"type": "string", "enum": []any{"text/never"}}},
+		}
+	}
+	body := map[string]any{"type": "object", "properties": map[string]any{"name": map[string]any{"type": "string"}}}
+	resp := func() map[string]any {
+		return map[string]any{"schema": body, "headers": hdrs(), "shared": variant%2 == 1}
+	}
+	doc := map[string]any{"ops": []any{
+		map[string]any{"path": "/rh", "method": "get", "params": []any{}, "resp": resp()},
+		map[string]any{"path": "/rh", "method": "put", "params": []any{}, "resp": resp()},
+		map[string]any{"path": "/rh2", "method": "get", "params": []any{}, "resp": resp()},
+	}, "schemas": map[string]any{}}
+	calls := []any{
+		map[string]any{"k": "vresp", "op": 0, "router": "g", "multi": false, "body": `{"name":"ab"}`, "rhdr": map[string]any{"X-Rate": "5", "X-Tag": "ab"}},
+		map[string]any{"k": "vresp", "op": 1, "router": "l", "multi": true, "body": `{"name":"ab"}`, "rhdr": map[string]any{"X-Rate": "abc"}},
+		map[string]any{"k": "vresp", "op": 2, "router": "g", "multi": true, "body": `{"name":1}`, "rhdr": map[string]any{"X-Tag": "zz"}},
+		map[string]any{"k": "vresp", "op": 0, "router": "l", "multi": false, "body": `{}`, "rhdr": map[string]any{"X-Rate": "0", "X-Tag": "ba"}},
+	}
+	return hx.Case{"doc": doc, "calls": calls, "g": 8, "per": 3, "rounds": 2, "cold": cold, "sched": 1300 + n}
+}
+
+// c15ArrayDefaultCase: a property whose default is an ARRAY of objects (or an array of arrays of objects) and whose item
+// schema declares defaults for properties the default's elements leave out; requests that omit the property, with
+// defaults enabled, through ValidateRequest and VisitJSON — the elements of the injected default must not be the
+// document's own maps.
+func c15ArrayDefaultCase(variant int, cold bool, n int) hx.Case {
+	elem := map[string]any{"type": "object", "properties": map[string]any{
+		"label":  map[string]any{"type": "string"},
+		"weight": map[string]any{"type": "integer", "default": 1 + variant},
+	}}
+	var tags map[string]any
+	if variant%2 == 0 {
+		tags = map[string]any{"type": "array", "items": elem, "default": []any{map[string]any{"label": "general"}, map[string]any{"label": "x", "weight": 9}}}
+	} else {
+		tags = map[string]any{"type": "array", "items": map[string]any{"type": "array", "items": elem},
+			"default": []any{[]any{map[string]any{"label": "general"}}, []any{}}}
+	}
+	s := map[string]any{"type": "object", "properties": map[string]any{"name": map[string]any{"type": "string", "minLength": 2}, "tags": tags}}
+	doc := map[string]any{"ops": []any{
+		map[string]any{"path": "/ad", "method": "post", "params": []any{}, "body": map[string]any{"mt": "application/json", "schema": map[string]any{"$ref": "#/components/schemas/AD"}}},
+		map[string]any{"path": "/ad2", "method": "put", "params": []any{}, "body": map[string]any{"mt": "application/json", "schema": s}},
+	}, "schemas": map[string]any{"AD": s}}
+	calls := []any{
+		map[string]any{"k": "vreq", "op": 0, "router": "g", "ct": "application/json", "body": `{"name":"ab"}`, "skipDefaults": false, "multi": false},
+		map[string]any{"k": "vreq", "op": 1, "router": "l", "ct": "application/json", "body": `{"name":"a"}`, "skipDefaults": false, "multi": true},
+		map[string]any{"k": "visit", "schema": "AD", "value": `{"name":"zz"}`, "opts": []any{"asreq", "defaults"}},
+		map[string]any{"k": "vreq", "op": 0, "router": "l", "ct": "application/json", "body": `{"name":"ab","tags":[]}`, "skipDefaults": false, "multi": false},
+		map[string]any{"k": "vreq", "op": 1, "router": "g", "ct": "application/json", "body": `{"name":"ab"}`, "skipDefaults": true, "multi": false},
+	}
+	return hx.Case{"doc": doc, "calls": calls, "g": 8, "per": 3, "rounds": 2, "cold": cold, "sched": 1400 + n}
+}
+
 // c15SchemaListCase: lists inside schemas that are decoded with spare capacity, and values that take the error paths
 // which print / walk those lists
 func c15SchemaListCase(v int, cold bool, n int) hx.Case {
@@ -1894,6 +2004,15 @@ func genC15(ctx *hx.Ctx, emit func(hx.Case)) {
 			emit(c15SchemaListCase(v, cold, n))
 		}
 	}
+	// declared response headers (inline / one shared component response) and array-of-objects defaults
+	for v := 0; v < 2; v++ {
+		for _, cold := range []bool{true, false} {
+			n++
+			emit(c15RespHeaderCase(v, cold, n))
+			n++
+			emit(c15ArrayDefaultCase(v, cold, n))
+		}
+	}
 	// re-validation of the shared document next to each kind of concurrent call (out of the property's list of calls, but
 	// table ConstructionWrites says it only reads a validated document: checked here under -race)
 	for i, k := range c15Kinds {
@@ -1903,6 +2022,68 @@ func genC15(ctx *hx.Ctx, emit func(hx.Case)) {
 	}
 	// single goroutine: the sequential behaviour of the same machinery (trivial cases)
 	emit(hx.Case{"doc": c15SinkDoc("one"), "calls": []any{c15SinkCall("vreq", 0), c15SinkCall("visit", 1)}, "g": 1, "per": 2, "rounds": 1, "cold": false, "sched": 1})
+	// history / reuse (theorems sequential_reuse, call_after_any_history, concurrent_reuse): ONE goroutine performs every
+	// call of the case three times over, one after the other, on the same loaded document / routers / Validator, in
+	// the given order and in reverse order — no schedule is involved, so anything a call leaves behind for the next one
+	// (a cache filled with a per-call value, a list of the document sorted or extended in place, a field of the shared
+	// route or Validator) shows deterministically: each verdict is compared with the call alone on a freshly loaded
+	// document (and, cold, alone in a fresh process), the document with its JSON before.
+	c15Seq := func(c hx.Case, cold bool) {
+		calls := jlist(c["calls"])
+		for _, rev := range []bool{false, true} {
+			n++
+			cc := cloneCase(c)
+			l := append([]any{}, jlist(cc["calls"])...)
+			if rev {
+				for a, b := 0, len(l)-1; a < b; a, b = a+1, b-1 {
+					l[a], l[b] = l[b], l[a]
+				}
+			}
+			cc["calls"], cc["g"], cc["per"], cc["rounds"], cc["cold"], cc["sched"] = l, 1, 3*len(calls), 1, cold, 1200+n
+			emit(cc)
+		}
+	}
+	{
+		var calls []any
+		for i, k := range c15Kinds {
+			calls = append(calls, c15SinkCall(k, i), c15SinkCall(k, i+1))
+		}
+		calls = append(calls, map[string]any{"k": "dval"})
+		c15Seq(hx.Case{"doc": c15SinkDoc("seqall"), "calls": calls}, true)
+		// the same pattern text reached with two regex compilers, one call after the other
+		for v, val := range []string{"ABAB", "abab"} {
+			n++
+			c15Seq(hx.Case{"doc": c15SinkDoc(fmt.Sprintf("seqrx%d", n)), "calls": []any{
+				map[string]any{"k": "visit", "schema": "S1", "value": `{"name":"` + val + `"}`, "opts": []any{"multi"}, "rx": "ci"},
+				map[string]any{"k": "visit", "schema": "S1", "value": `{"name":"` + val + `"}`, "opts": []any{"multi"}},
+				map[string]any{"k": "vreq", "op": 0, "pathv": "ab", "router": "g", "query": "q=1", "ct": "application/json",
+					"body": `{"name":"` + val + `","tags":["A","b"]}`, "skipDefaults": false, "multi": false, "rx": "ci"},
+				map[string]any{"k": "vreq", "op": 0, "pathv": "ab", "router": "l", "query": "q=1", "ct": "application/json",
+					"body": `{"name":"` + val + `","tags":["A","b"]}`, "skipDefaults": false, "multi": true},
+			}}, v == 0)
+		}
+		for _, nItem := range []int{0, 3, 4, 5} {
+			c15Seq(c15PathItemCase(nItem, nItem%2, n), false)
+		}
+		for v := 0; v < 3; v++ {
+			c15Seq(c15SchemaListCase(v, false, n), v == 0)
+		}
+		for v := 0; v < 2; v++ {
+			c15Seq(c15RespHeaderCase(v, false, n), false)
+			c15Seq(c15ArrayDefaultCase(v, false, n), false)
+		}
+		for t := 0; t < 2; t++ { // first and repeated generation for recursive types, with and without options
+			var gc []any
+			for ty := 12; ty < 20; ty++ {
+				c := map[string]any{"k": "gen", "type": ty, "rec": true, "opts": []any{}}
+				if (ty+t)%3 == 0 {
+					c["opts"] = []any{"allExported"}
+				}
+				gc = append(gc, c)
+			}
+			c15Seq(hx.Case{"doc": c15SinkDoc("seqrec"), "calls": gc}, true)
+		}
+	}
 
 	nCold, nWarm := 110, 260
 	if ctx.Thorough() {
@@ -1921,7 +2102,11 @@ func genC15(ctx *hx.Ctx, emit func(hx.Case)) {
 			}
 			calls = append(calls, g.call(kind, doc))
 		}
-		emit(hx.Case{"doc": doc, "calls": calls, "g": 2 + r.Intn(11), "per": 1 + r.Intn(3), "rounds": 1 + r.Intn(2), "cold": cold, "sched": int(r.U64() % 100000)})
+		c := hx.Case{"doc": doc, "calls": calls, "g": 2 + r.Intn(11), "per": 1 + r.Intn(3), "rounds": 1 + r.Intn(2), "cold": cold, "sched": int(r.U64() % 100000)}
+		if !cold && i%12 == 7 {
+			c["g"], c["per"], c["rounds"] = 1, 3*len(calls), 1 // one goroutine, every call three times in a row (reuse)
+		}
+		emit(c)
 	}
 }
 
